@@ -66,6 +66,7 @@ class VThread:
         self.exc = None
         self.label = None         # the line this thread is about to execute
         self.steps = 0
+        self.ended_at = None
 
     # -- threading.Thread interface used by the repository
     def start(self):
@@ -105,6 +106,7 @@ class VThread:
             self.exc = ex
         finally:
             self.state = 'done'
+            self.ended_at = s.now
             if not s._aborting:
                 try:
                     s._reschedule(self)
@@ -166,6 +168,8 @@ class VRLock:
             return True
         if not blocking:
             return False
+        if not s.lock_timeouts:
+            timeout = None
         ok = s.block(lambda: self.owner is None, None if timeout is None or timeout < 0 else timeout)
         if ok:
             self.owner = s.current
@@ -251,11 +255,31 @@ class _Datetime:
 # ------------------------------------------------------------------------------ policies
 class RunToBlock:
     """no pre-emption: the current thread runs until it blocks or ends; then the runnable
-    thread that was started first; time advances only when nothing is runnable"""
+    thread that was started first; time advances only when nothing is runnable.  `max_run`
+    is a fairness valve: after that many consecutive decisions for one thread while others
+    are runnable, the next runnable thread (by creation order) gets its turn."""
+
+    def __init__(self, max_run=None):
+        self.max_run = max_run
+        self.last = None
+        self.streak = 0
 
     def __call__(self, sched, runnable, can_advance):
-        if sched.current in runnable:
-            return sched.current
+        cur = sched.current
+        if cur in runnable:
+            if self.max_run is not None and len(runnable) > 1:
+                self.streak = self.streak + 1 if cur is self.last else 1
+                self.last = cur
+                if self.streak > self.max_run:
+                    self.streak = 0
+                    order = sched.threads
+                    i = order.index(cur)
+                    for k in range(1, len(order) + 1):
+                        t = order[(i + k) % len(order)]
+                        if t in runnable and t is not cur:
+                            self.last = t
+                            return t
+            return cur
         return runnable[0]
 
 
@@ -350,6 +374,40 @@ class Inject:
         return self.base(sched, runnable, can_advance)
 
 
+class Inject2:
+    """like Inject with several windows [(at, burst)…]: the held thread may run only from
+    decision `at` on, for `burst` of its own steps (None: until it ends); then it is held
+    again until the next window opens"""
+
+    def __init__(self, base, hold, windows):
+        self.base = base
+        self.hold = hold
+        self.windows = list(windows)
+        self.w = 0
+        self.given = 0
+
+    def __call__(self, sched, runnable, can_advance):
+        held = [t for t in runnable if t.name == self.hold]
+        if not held:
+            return self.base(sched, runnable, can_advance)
+        n = len(sched.decisions)
+        while self.w < len(self.windows):
+            at, burst = self.windows[self.w]
+            if n < at:
+                break
+            if burst is None or self.given < burst:
+                self.given += 1
+                return held[0]
+            self.w += 1
+            self.given = 0
+        others = [t for t in runnable if t.name != self.hold]
+        if others:
+            return self.base(sched, others, can_advance)
+        if can_advance:
+            return ADVANCE
+        return held[0]
+
+
 # ------------------------------------------------------------------------------ scheduler
 class Sched:
     def __init__(self, policy=None, t0=1000000.0, trace=None, namer=None, max_steps=20000,
@@ -368,6 +426,7 @@ class Sched:
         self.watchdog_s = watchdog_s
         self.on_exec = on_exec
         self.on_time = None       # on_time(thread, now): a thread reads the (virtual) clock
+        self.lock_timeouts = True  # False: `acquire(timeout=…)` waits as long as it takes
         self.threads = []
         self.current = None
         self.decisions = []
